@@ -2,6 +2,7 @@ CONSTANTS
   Programs <- ProgsLit
   GenTs <- Gts
   SplitRemove = FALSE
+  ClearSnapshot = FALSE
   EmitOneIn = 1
 SPECIFICATION Spec
 CHECK_DEADLOCK FALSE
